@@ -17,6 +17,6 @@ else
     [ -f "$S/repo/$f" ] || cp "/repo/$f" "$S/repo/$f"
   done
 fi
-mkdir -p "$S/vd"; cp /verif/KNOWN_FINDINGS.txt "$S/vd/" 2>/dev/null
-VERIF_REPO="$S/repo" VERIF_DIR="$S/vd" timeout ${AGAINST_TIMEOUT:-1500} /verif/check.sh "$PROP" "$TIER" 2>&1 | sed "s#$S/vd#<scratch>#g" | grep -E "^VIOLATION|signature:|^C[0-9]+ |KNOWN|INCONCLUSIVE|BUILD|violating" | sort | uniq -c | sort -rn | head -${AGAINST_LINES:-25}
+mkdir -p "$S/vd" "$S/verif"; [ -f "$S/verif/check.sh" ] || git -C /verif archive HEAD | tar -x -C "$S/verif"; cp /verif/KNOWN_FINDINGS.txt "$S/vd/" 2>/dev/null
+VERIF_REPO="$S/repo" VERIF_DIR="$S/vd" timeout ${AGAINST_TIMEOUT:-1500} "$S/verif/check.sh" "$PROP" "$TIER" 2>&1 | sed "s#$S/vd#<scratch>#g" | grep -E "^VIOLATION|signature:|^C[0-9]+ |KNOWN|INCONCLUSIVE|BUILD|violating" | sort | uniq -c | sort -rn | head -${AGAINST_LINES:-25}
 exit ${PIPESTATUS[0]}
